@@ -252,10 +252,17 @@ def r17_3_to_record(rep, facts):
         for (nm, args, n) in copies:
             dst, src = ir.peel(args[0]), ir.peel(args[1])
             rng = [x for x in ir.walk(dst) if x[0] == 'agg' and x[2].startswith("std::ops::Range")]
-            if not rng:
+            sp_ = ir.peel(dst[1]) if dst[0] == 'field' else None
+            if not rng and sp_ is not None and sp_[0] == 'call' and sp_[1].split("::")[-1] in ("split_at_mut", "split_at_mut_checked") and len(sp_[2]) == 2 \
+                    and ir.peel(sp_[2][0])[0] in ('local', 'agg', 'const') and str(dst[2]) in ('0', '1'):
+                # `let (h, b) = buf.split_at_mut(LEN)`: h is buf[..LEN], b is buf[LEN..]
+                rk = "RangeTo" if str(dst[2]) == '0' else "RangeFrom"
+                bound = {"end": sp_[2][1], "start": sp_[2][1]}
+            elif not rng:
                 continue
-            rk = rng[0][2].split("::")[-1]
-            bound = dict(rng[0][3])
+            else:
+                rk = rng[0][2].split("::")[-1]
+                bound = dict(rng[0][3])
             if rk == "RangeTo" and cv(bound.get("end")) == SPEC["header_len"]:
                 h = [x for x in ir.walk(src) if x[0] == 'agg' and x[2] == "protocol::RecordHeader::RecordHeader"]
                 if h and ir.peel(src)[0] == 'call' and ir.peel(src)[1] == "protocol::RecordHeader::to_bytes":
